@@ -583,13 +583,30 @@ def _overrides_through_the_model(ctx, r6, repo, pyhf_excs):
 
     w = World({"__strict__": True}, module_env={"exceptions": Obj("exceptions"), "log": Obj("log")})
     w.add_func(fin).add_func(red)
+    # the order of the two arguments of the private helper is whatever its definition (and its one call site) say today: the
+    # order in which a well-formed call is accepted and gives back the merged table
+    def call_fin(user, reqs):
+        return w.call_func(fin, [user, reqs] if call_fin.user_first else [reqs, user])
+
+    call_fin.user_first = True
+    for first_ in (True, False):
+        call_fin.user_first = first_
+        try:
+            probe = call_fin([{"name": "q", "inits": [c(1), c(2)]}], {"q": [req("normal")]})
+            if isinstance(probe, dict) and "q" in probe:
+                break
+        except (RaisedInFragment,) + errs:
+            continue
+    else:
+        ctx.unrecognised(r6, fin, "_finalize_parameters_specs", "a well-formed (user parameters, requirements) pair is accepted in neither argument order")
+        return
     plan = [("poisson", k_) for k_ in ("inits", "bounds", "auxdata", "factors")] + [("normal", k_) for k_ in ("inits", "sigmas", "auxdata")]
     for kind, keyname in plan:
         for n_, lab in ((2, "right length"), (1, "too short"), (3, "too long")):
             val = [[c(0), c(5)] for _ in range(n_)] if keyname == "bounds" else [c(j + 1) for j in range(n_)]
             site = f"{PDF}::_finalize_parameters_specs -> reduce_paramsets_requirements [{kind}-constrained set, {keyname} override {lab}]"
             try:
-                out = w.call_func(fin, [[{"name": "q", keyname: val}], {"q": [req(kind)]}])
+                out = call_fin([{"name": "q", keyname: val}], {"q": [req(kind)]})
                 if n_ != 2:
                     ctx.violated(r6, fin, f"override length through the model [{kind}, {keyname} {lab}]", f"a measurement that sets `{keyname}` of a 2-component parameter set to {n_} value(s) is accepted at model construction: the surplus / missing values shift onto unrelated parameters", expected="raise InvalidModel", found="accepted")
                 else:
